@@ -27,7 +27,11 @@ theorem sendreply_only_origin (w : World) (o ci : Nat) (r : Rq) (hr : getRq w o 
   simp only [hr, hf]
   cases replyBytes w r (secretOfCli w ci) with
   | none => simp only; rw [getCli_freerq]; rfl
-  | some b => simp only; rw [getCli_updCli_other _ ci cj _ (fun h => hne h.symm)]; rfl
+  | some b =>
+    simp only
+    split
+    · rw [getCli_updCli_other _ ci cj _ (fun h => hne h.symm)]; rfl
+    · rw [getCli_freerq]; rfl
 
 /-- … and the origin's queue gains exactly this request, at the end -/
 theorem sendreply_queues_once (w : World) (o ci : Nat) (r : Rq) (c : Client) (b : Bytes)
@@ -36,7 +40,10 @@ theorem sendreply_queues_once (w : World) (o ci : Nat) (r : Rq) (c : Client) (b 
     (getCli (sendreply w o) ci).map (·.replyq) = some (c.replyq ++ [o]) ∧
     (getRq (sendreply w o) o).bind (·.replybuf) = some b := by
   unfold sendreply
-  simp only [hr, hf, hb]
+  have hc' : (getCli (setRq w o { r with replybuf := some b, msg := none, frm := some ci }) ci).isSome = true := by
+    have : getCli (setRq w o { r with replybuf := some b, msg := none, frm := some ci }) ci = getCli w ci := rfl
+    rw [this, hc]; rfl
+  simp only [hr, hf, hb, hc', if_true]
   constructor
   · rw [getCli_updCli_same _ ci _ c (by exact hc)]; rfl
   · rw [getRq_updCli, getRq_setRq_same, hr]; rfl
